@@ -155,6 +155,24 @@ def driver_run(lines: list[str]) -> list[str]:
     return out
 
 
+def compat_selftest(timeout=2400) -> dict:
+    """thorough tier: run upstream tests/test_core.py + tests/test_pjax.py of the checked tree against the compat build of that tree.
+    Informational (recorded in the evidence, never part of the verdict): it shows that the JAX-0.11 vocabulary shim of
+    harness/compat.py runs genjax's own test-suite, i.e. that the code under test is the code upstream tests."""
+    import compat
+    root = compat.build(REPO)
+    env = dict(os.environ, PYTHONPATH=root + os.pathsep + os.environ.get("PYTHONPATH", ""), JAX_PLATFORMS="cpu")
+    try:
+        p = subprocess.run(["/venv/bin/python", "-m", "pytest", "-q", "-p", "no:cacheprovider", "--no-cov", "tests/test_core.py", "tests/test_pjax.py"],
+                           cwd=REPO, env=env, capture_output=True, text=True, timeout=timeout)
+        tail = (p.stdout + p.stderr).strip().splitlines()[-1:] or [""]
+        m = re.search(r"(\d+) passed", tail[0])
+        f = re.search(r"(\d+) failed", tail[0])
+        return {"summary": tail[0][-200:], "passed": int(m.group(1)) if m else 0, "failed": int(f.group(1)) if f else 0}
+    except Exception as e:
+        return {"summary": f"self-test did not run: {type(e).__name__}: {e}"[:200], "passed": 0, "failed": -1}
+
+
 # ----------------------------------------------------------------------------- findings
 
 
